@@ -676,10 +676,11 @@ def MFDev.construct (acc : MFSettings δ → Bool) (kw : Dict α δ) : Except Er
 
 def MFDev.toDict (m : MFSettings δ) : Dict α δ := [("flows", .strs m.flows), ("device", .obj m.device)]
 
-/-- TwoRatioMFDeviceSet(device, flows, ratios, constraint_type='eq'); `ratios=None` is accepted. -/
+/-- TwoRatioMFDeviceSet(device, flows, ratios, constraint_type='eq'); `ratios` is required and `ratios=None`
+is rejected (tworatiomfdeviceset.py:16-17, since /repo daf94a5). -/
 structure TRSettings (α δ : Type) where
   mf : MFSettings δ
-  ratios : Option (List α)
+  ratios : List α
   ctype : String
 
 def trNamed : List String := mfNamed ++ ["ratios", "constraint_type"]
@@ -690,8 +691,8 @@ def TRDev.construct (acc : TRSettings α δ → Bool) (kw : Dict α δ) : Except
   | Option.none => pure ()
   let m ← MFDev.bind kw
   let ratios ← match kw.get "ratios" with
-    | some (.vec l) => pure (some l)
-    | some .none => pure Option.none
+    | some (.vec l) => pure l
+    | some .none => throw .rejected            -- `ratios is None` raises ValueError
     | some _ => throw (.badValue "ratios")
     | Option.none => throw (.missing "ratios")
   let ctype ← match kw.get "constraint_type" with
@@ -703,7 +704,7 @@ def TRDev.construct (acc : TRSettings α δ → Bool) (kw : Dict α δ) : Except
 
 def TRDev.toDict (t : TRSettings α δ) : Dict α δ :=
   MFDev.toDict t.mf ++
-  [("ratios", match t.ratios with | Option.none => .none | some l => .vec l), ("constraint_type", .str t.ctype)]
+  [("ratios", .vec t.ratios), ("constraint_type", .str t.ctype)]
 
 /-! ## key lists of the model's dumps, per shipped class (compared with the generated table and
 with the real `to_dict().keys()`) -/
